@@ -1,10 +1,19 @@
 //! Manage tokens for remote client IPs.
 
 use crc::{Crc, CRC_32_ISCSI};
+#[cfg(not(mainline_verif))]
 use std::{
     fmt::{self, Debug, Formatter},
     net::SocketAddrV4,
     time::Instant,
+};
+#[cfg(mainline_verif)]
+use {
+    crate::verif::Instant,
+    std::{
+        fmt::{self, Debug, Formatter},
+        net::SocketAddrV4,
+    },
 };
 
 use tracing::trace;
@@ -86,6 +95,17 @@ impl Tokens {
         let checksum = digest.finalize();
 
         checksum.to_be_bytes()
+    }
+}
+
+#[cfg(mainline_verif)]
+impl Tokens {
+    pub fn verif_snapshot(&self) -> crate::verif::TokensSnapshot {
+        crate::verif::TokensSnapshot {
+            prev_secret: self.prev_secret,
+            curr_secret: self.curr_secret,
+            last_updated: self.last_updated.as_nanos(),
+        }
     }
 }
 
